@@ -87,8 +87,10 @@ def write_fixture(wd):
     c15.write_fixture(wd)
 
 
-def load_pair(fmt, epoch=0.0, shifted=False):
+def load_pair(fmt, epoch=0.0, shifted=False, geometry=None):
     ref, est1, _ = c15.load_model(fmt, epoch)
+    if geometry:
+        return c15.geometry_variant(ref, est1, geometry)
     if fmt == "euroc":
         # evo_ape euroc: reference from the csv, estimate from a TUM file
         _, est1, _ = c15.load_model("tum", epoch)
@@ -99,7 +101,11 @@ def load_pair(fmt, epoch=0.0, shifted=False):
     return ref, est1
 
 
-def file_args(fmt, epoch=0.0, shifted=False):
+def file_args(fmt, epoch=0.0, shifted=False, geometry=None):
+    if geometry == "same":
+        return ["tum", "ref.txt", "ref.txt"]
+    if geometry:
+        return ["tum", "ref_%s.txt" % geometry, "est1_%s.txt" % geometry]
     e = "_e" if epoch else ""
     sft = "_s" if shifted else ""
     if fmt == "tum":
@@ -117,7 +123,7 @@ ALIGN_OPTS = {"none": [], "a": ["-a"], "s": ["-s"], "as": ["-a", "-s"],
 def common_argv(pt):
     fmt = pt["fmt"]
     epoch = pt.get("epoch", 0.0)
-    argv = file_args(fmt, epoch, pt["t_offset"] == 1.0)
+    argv = file_args(fmt, epoch, pt["t_offset"] == 1.0, pt.get("geometry"))
     argv += ["-r", pt["relation"]]
     argv += ALIGN_OPTS[pt["align"]]
     if pt["n_to_align"] != -1:
@@ -147,7 +153,7 @@ def processed_pair(pt):
     -> (ref, est) RTraj; raises pl.Refusal / pl.Ambiguous"""
     fmt = pt["fmt"]
     epoch = pt.get("epoch", 0.0) if fmt != "kitti" else 0.0
-    ref, est = load_pair(fmt, epoch, timed_shift(pt))
+    ref, est = load_pair(fmt, epoch, timed_shift(pt), pt.get("geometry"))
     ref, est = ref.copy(), est.copy()
     timed = fmt != "kitti"
     if pt["downsample"]:
